@@ -8,6 +8,7 @@ import (
 	"os"
 	"runtime"
 	"sort"
+	"strings"
 	"sync"
 	"sync/atomic"
 	"time"
@@ -194,6 +195,14 @@ func genOp(rng *rand.Rand, p E2E, conn, caller int, counter uint64) *Op {
 		DelayUs: uint32(rng.Intn(5000)), Fill: pickFill(rng, big), ReplyLen: uint32(pickFill(rng, big))}
 	if rng.Intn(4) == 0 {
 		o.Spec.DelayUs = 0
+	}
+	// frames just below and above the configured buffer sizes (between a
+	// size that is not a pool size class and the capacity of its class)
+	if p.Cfg.SrvBuf > 64 && rng.Intn(5) == 0 {
+		o.Spec.Fill = max(0, p.Cfg.SrvBuf-120+rng.Intn(400))
+	}
+	if p.Cfg.CliBuf > 64 && rng.Intn(5) == 0 {
+		o.Spec.ReplyLen = uint32(max(0, p.Cfg.CliBuf-120+rng.Intn(400)))
 	}
 	o.BufCap = []int{0, 1, 64, 1024, 70000, int(o.Spec.ReplyLen) + svc.IDLen + 32, int(o.Spec.ReplyLen) + svc.IDLen + 31, int(o.Spec.ReplyLen) + svc.IDLen + 33}[rng.Intn(8)]
 	if rng.Intn(3) == 0 && o.Spec.ReplyLen < 70000 {
@@ -446,6 +455,12 @@ func (sp *StreamPlan) run(c *e2eConn, p E2E, retain bool) {
 	}
 	sp.setStage("close")
 	st.Close()
+	if sp.ID%2 == 1 {
+		// a second Close sends a close message for a stream the server no
+		// longer knows; like every request message it is answered
+		sp.setStage("close again")
+		st.Close()
+	}
 	sp.setStage("closed")
 }
 
@@ -575,7 +590,9 @@ func RunE2EOn(env Env, p E2E, start func(cfg rig.Config, seed int64) (*rig.Rig, 
 	var gcStop int32
 	if p.Profile == "retain" {
 		go func() {
-			for atomic.LoadInt32(&gcStop) == 0 {
+			// bounded: a scenario with a hung call waits 30 virtual minutes
+			// for it, which must not turn into 600000 collections
+			for i := 0; i < 2000 && atomic.LoadInt32(&gcStop) == 0; i++ {
 				time.Sleep(3 * time.Millisecond)
 				runtime.GC()
 			}
@@ -704,7 +721,9 @@ func RunE2EOn(env Env, p E2E, start func(cfg rig.Config, seed int64) (*rig.Rig, 
 			if atomic.LoadInt32(&sp.done) == 0 {
 				hungStreams++
 				st, _ := sp.stage.Load().(string)
-				if env.Virtual() && hungStreams <= 3 {
+				if env.Virtual() && hungStreams <= 3 && strings.HasPrefix(st, "close") {
+					out.add("C04", "C04/e2e/close-unanswered", fmt.Sprintf("Stream.Close (stage %q) of stream %d is blocked at quiescence: its close message was sent and the server never answered it (%s)", st, sp.ID, p.Cfg), nil)
+				} else if env.Virtual() && hungStreams <= 3 {
 					out.add("C09", "C09/e2e/stream-blocked/push="+fmt.Sprint(sp.Push > 0), fmt.Sprintf("stream %d (push=%d, writeFirst=%v, %s) is blocked in %q at quiescence: the message it waits for was written by the peer but never delivered",
 						sp.ID, sp.Push, sp.WriteFirst, p.Cfg, st), map[string]interface{}{"reads_so_far": len(sp.Reads), "stage": st})
 				}
@@ -997,6 +1016,11 @@ func judgeE2E(out *Outcome, p E2E, r *rig.Rig, conns []*e2eConn, all []*Op, stre
 				want := enc > 0 && cap(rec.Buf) >= enc
 				if want != rec.BufUsed && svc.Aliasing(p.Cfg.Codec) {
 					out.add("C19", "C19/e2e/buffer-use", fmt.Sprintf("context buffer cap %d, encoded reply %d bytes: reply placed in the buffer=%v, expected %v (%s)", cap(rec.Buf), enc, rec.BufUsed, want, cfgs), nil)
+				}
+				// "safely ignored when not [large enough]": a reply that did not
+				// go into the buffer is the caller's like any other reply
+				if !rec.BufUsed && len(rec.Reply) > 0 && svc.Sum(rec.Reply) != rec.ReplySum {
+					out.add("C19", "C19/e2e/small-buffer-reply-changed", fmt.Sprintf("CallWithContext %s with a context buffer (cap %d) too small for the reply (%d bytes encoded) returned the right reply, which changed afterwards (%s)", id, cap(rec.Buf), enc, cfgs), nil)
 				}
 				if ok, at := rec.CanaryIntact(enc); !ok {
 					out.add("C11", "C11/e2e/canary", fmt.Sprintf("byte %d of the caller-supplied buffer (cap %d) was overwritten; the encoded reply has %d bytes (%s)", at, cap(rec.Buf), enc, cfgs), nil)
